@@ -42,6 +42,30 @@ class MyDict(dict):
 Pair = collections.namedtuple("Pair", "a b")
 
 
+class SeqObj:
+    """has __len__ and __getitem__ but iterates in REVERSE order: unpack must use iteration, like tuple(x)"""
+
+    def __init__(self, items):
+        self.items = items
+
+    def __len__(self):
+        return len(self.items)
+
+    def __getitem__(self, i):
+        return self.items[i]
+
+    def __iter__(self):
+        return iter(self.items[::-1])
+
+    def __eq__(self, other):
+        return type(other) is SeqObj and self.items == other.items
+
+    __hash__ = None
+
+    def canon(self):
+        return "SeqObj[" + ",".join(canon(i) for i in self.items) + "]"
+
+
 class Blob:
     """plain object, identity equality"""
 
@@ -295,6 +319,11 @@ def compute(ir, n, args, kwargs):
         return tuple(Val((n.id, i), d) for i in range(n.seq_n))
     if fk == "gen":
         return (Val((n.id, i), d) for i in range(n.seq_n))
+    if fk == "imap":
+        # a mapping with the integer keys 0..n-1: iterating it (what unpack does) yields the KEYS, not the values
+        return {i: Val((n.id, i), d) for i in range(n.seq_n)}
+    if fk == "seqobj":
+        return SeqObj([Val((n.id, i), d) for i in range(n.seq_n)])
     if fk == "first":
         return args[0] if args else Val(n.id, d)
     raise AssertionError(fk)
@@ -537,6 +566,8 @@ def skeleton(rng, family, n):
 
 SCOPE_VALUES = ["a", "b", ("t", 1), 1, 2, None, frozenset({1}), "x.y", 3.5]
 CONSTS = [0, 1, "s", None, (1, 2), "k"]
+FRESH_CONSTS = [lambda: tuple([1, 2]), lambda: (True, 2), lambda: 0.0, lambda: -0.0, lambda: "".join(["s", "t", "r"]), lambda: tuple([1, 2]),
+                lambda: frozenset([1, 2]), lambda: (1.0, 2), lambda: tuple(), lambda: 10 ** 30, lambda: b"by" + b"tes"]
 
 
 def gen_ir(rng, n_calls, family=None, rich=True, cfg=None):
@@ -571,6 +602,10 @@ def gen_ir(rng, n_calls, family=None, rich=True, cfg=None):
 
     def const_expr():
         r = rng.random()
+        if rich and r < 0.18:
+            # equal (and hash-equal) but distinct objects: "the very objects supplied" is about identity, so two calls given
+            # equal constants must each receive their own object (0.0 / -0.0, (1, 2) / (True, 2), freshly built tuples/strings)
+            return const(rng.choice(FRESH_CONSTS)())
         if r < 0.6 or not rich:
             return const(rng.choice(CONSTS))
         if r < 0.8:
@@ -587,7 +622,7 @@ def gen_ir(rng, n_calls, family=None, rich=True, cfg=None):
             pn = ir.nodes[pid]
             r = rng.random()
             # producers of sequences can be unpacked
-            if rich and pn.fnkind in ("list", "tuple", "gen") and rng.random() < 0.8:
+            if rich and pn.fnkind in ("list", "tuple", "gen", "imap", "seqobj") and rng.random() < 0.8:
                 if pid not in unpacks:
                     u = ir.add("unpack", src=ref(pid), length=pn.seq_n)
                     unpacks[pid] = [ir.add("item", src=u.id, index=j) for j in range(pn.seq_n)]
@@ -651,7 +686,7 @@ def gen_ir(rng, n_calls, family=None, rich=True, cfg=None):
         seq_n = 0
         r = rng.random()
         if rich and r < p_unp:
-            fk = rng.choice(["list", "tuple", "gen"])
+            fk = rng.choice(["list", "tuple", "gen", "imap", "seqobj"])
             seq_n = rng.randint(0, 5)
         elif rich and r < p_unp + 0.12:
             fk = "int"
@@ -667,6 +702,7 @@ def gen_ir(rng, n_calls, family=None, rich=True, cfg=None):
             ir.deps.append((d, n.id))
     ir.meta["skel_to_id"] = skel_to_id
     call_ids = ir.harness_calls()
+    ir.meta["shuffle_deps"] = rng.random() < 0.5
     # literal hubs: m predecessors -> literal -> n successors (both sides of the m*n > m+n threshold)
     if rich and len(call_ids) >= 4 and rng.random() < cfg.get("p_hub", 0.35):
         for _ in range(rng.randint(1, 2)):
@@ -688,6 +724,10 @@ def gen_ir(rng, n_calls, family=None, rich=True, cfg=None):
     hashable.update(n.id for n in ir.nodes if n.kind == "lit")
     ir.meta["hashable"] = hashable
     ir.output = gen_output(rng, ir, cfg.get("out", None))
+    if ir.meta.get("shuffle_deps"):
+        # add_dependency calls are issued in list order by build(): the order of declaration must not matter (e.g. lit -> b declared
+        # before a -> lit)
+        rng.shuffle(ir.deps)
     return ir
 
 
